@@ -113,6 +113,11 @@ def colname(cfg: dict, ci: int) -> str:
     return 'one' if ci >= cfg['C'] else f'x{ci}'
 
 
+def _start(cfg, v):
+    """Starting values written as Python integers when the configuration says so (Beta('b', 0, ...) is the usual spelling)."""
+    return int(v) if cfg.get('int_init') and float(v) == int(v) else v
+
+
 def _absent(cfg, bd):
     """An absent bound is written None or, equivalently, as an infinite number (buggify knob 'inf_bounds')."""
     lb, ub = bd
@@ -133,7 +138,7 @@ def build_formulas(cfg: dict, cliff: bool = True, name_map: dict | None = None,
     for i, name in enumerate(cfg['names']):
         bd = cfg['bounds'][i] if cfg.get('bounds') else None
         lb, ub = _absent(cfg, bd if bd else (None, None))
-        b = Beta(nm(name), cfg['init'][i], lb, ub, 0)
+        b = Beta(nm(name), _start(cfg, cfg['init'][i]), lb, ub, 0)
         betas[name] = b
         blist.append(b)
     fixed = []
@@ -158,7 +163,7 @@ def build_formulas(cfg: dict, cliff: bool = True, name_map: dict | None = None,
         for i in range(cfg['K']):
             bd = cfg['bounds'][i] if cfg.get('bounds') else None
             lb, ub = _absent(cfg, bd if bd else (None, None))
-            twin = Beta(nm(cfg['names'][i]), cfg['init'][i], lb, ub, 0)
+            twin = Beta(nm(cfg['names'][i]), _start(cfg, cfg['init'][i]), lb, ub, 0)
             betas.setdefault('__twins__', []).append((cfg['names'][i], twin))
             second.append(twin)
     ridge = None
